@@ -44,7 +44,9 @@ MANIFEST = {
              "and is exactly what fails in the known finding split-blocks-fully-fixed-quantity, machine-checked as an example), every equation "
              "of the system is within tol at dates t, t+1 on the stored variant. Every-date statements: equations of degree <= 1 on arithmetic "
              "paths (within tol(1+2|t|); exact bound eps(1+2|t-t0|/(t1-t0))), monomial (log-linear) equations on geometric paths (zero at two "
-             "dates => zero at all dates); NOT for genuinely nonlinear equations (oracle only). Linear algorithm: whatever the executable "
+             "dates => zero at all dates); NOT for genuinely nonlinear equations (oracle only; a nonlinear equation can vanish at the two "
+             "evaluated dates of a spurious trending path and fail elsewhere: known finding nonlinear-growth-two-date-solution, "
+             "machine-checked as an example). Linear algorithm: whatever the executable "
              "algorithm returns makes the model's own residual zero at every rational date (QMat -> Matrix bridge; flat, growth, measurement "
              "block); the constants of the first-order system come from the STEADY versions at the zero point (exogenous variables count as "
              "0 there: known finding linear-steady-ignores-exogenous-variables, machine-checked). Autovalue equations hold after the update "
@@ -66,6 +68,7 @@ ASSUMPTIONS = [
     "log-variables are modelled multiplicatively (level*change^shift); agreement with exp(log level + shift*log change) is a theorem over the reals, floating-point exp/log is compared with tolerance",
     "the order of the unknowns inside the evaluator's guess vector (CPython set order) is not modelled: the model uses increasing qid and the harness permutes the implementation's final guess accordingly; the *sets* of level/change unknowns are compared exactly",
     "known finding `split-blocks-fully-fixed-quantity` (recorded, not repaired): probed once per run on the minimal case (corpus/C05/split-blocks-fully-fixed-quantity.json, reported through the known site); the generator does not otherwise combine a plan that fixes level and change of one quantity with an explicit split_into_blocks=True, so that no failure of that origin lands on another site",
+    "a failure is put on the narrow site nonlinear-growth-two-date-solution only when all of: growth mode, every equation within tolerance at dates 0 and 1, the failing equation's residual along the stored path not affine in the date, and a non-log quantity of that equation has a non-zero stored change; anything else stays on steady-equation-residual",
     "exogenous variables are only combined with the nonlinear algorithm: with linear=True the steady algorithm ignores them (known finding `linear-steady-ignores-exogenous-variables`, same root cause as the C06 finding; corpus/C05/linear-steady-ignores-exogenous-variables.json is probed on every run and reported through the known site)",
     "generated models possess a steady state by construction (stationary blocks are strictly diagonally dominant for every variant, unit root with drift, balanced growth); the every-date oracle is only meaningful for such models -- for a singular parameterisation the linear algorithm (least squares) completes without error on a model that has no steady state, which is outside the property's quantifier",
 ]
@@ -927,6 +930,34 @@ def kinds_of(case):
     return kinds
 
 
+def two_date_solution(flat: bool, kinds, levels, changes, texts, codes, failing_text, tol) -> str | None:
+    """the NARROW class of the known finding `nonlinear-growth-two-date-solution`: in growth mode the solver returned a trending
+    path on which every equation is within tolerance at the two dates the evaluator (and check_steady) look at, while an
+    equation whose residual along the stored path is NOT affine in the date (degree >= 2 in the trending quantities: affine
+    and monomial shapes cannot do this, `affine_residual_bounded_everywhere` / `mono_residual_zero_everywhere`) is violated
+    at another date, and a non-log quantity occurring in that equation -- which a steady state can only hold constant there --
+    has a non-zero stored change. Returns a description when ALL of this holds, else None (the failure stays on its site)."""
+    if flat:
+        return None
+    for code in codes:
+        for t in (0, 1):
+            r, scale = oracle_residual(code, kinds, levels, changes, t)
+            if not (abs(r) <= tol * scale):
+                return None
+    code = codes[texts.index(failing_text)]
+    rs = [oracle_residual(code, kinds, levels, changes, t)[0] for t in range(-3, 5)]
+    second = [rs[i + 1] - 2 * rs[i] + rs[i - 1] for i in range(1, len(rs) - 1)]
+    if not any(abs(d) > 1e-6 for d in second if d == d):
+        return None                                   # affine in the date: not this class
+    names = set(m.group(1) for m in _TOKEN.finditer(failing_text.split("!!")[-1]))
+    trending = sorted(n for n in names if kinds.get(n) == "v" and abs(changes.get(n) or 0.0) > 1e-9)
+    if not trending:
+        return None
+    return (f"two-date solution: all equations within tolerance at dates 0 and 1; the residual of `{failing_text}` is not affine in the "
+            f"date (second differences {second[1]:.3g}, {second[2]:.3g}); trending non-log quantities "
+            + ", ".join(f"{n}: change {changes[n]:.6g}" for n in trending))
+
+
 def oracle(ctx: Ctx, case, m, before, tol=TOL_ORACLE, payload=None, note="", dates=None) -> bool:
     """every steady equation text holds at dates -5..5 on the stored path, for every variant; plan-fixed values are kept.
     `tol`: relative threshold, derived by the caller from the tolerance in force at the solve that is being judged;
@@ -958,8 +989,10 @@ def oracle(ctx: Ctx, case, m, before, tol=TOL_ORACLE, payload=None, note="", dat
                 ctx.evaluations += 1
                 if not (abs(r) <= tol * scale):
                     ok = False
-                    ctx.fail("steady-equation-residual", case_for_json_(case),
-                             f"{note}variant {vid}: `{text}` at date {t:+d}: residual {r!r} on the stored steady path (scale {scale:.3g}, allowed {tol:g})")
+                    why = two_date_solution(case["flat"], kinds, levels, changes, texts, codes, text, tol) if t not in (0, 1) else None
+                    ctx.fail("nonlinear-growth-two-date-solution" if why else "steady-equation-residual", case_for_json_(case),
+                             f"{note}variant {vid}: `{text}` at date {t:+d}: residual {r!r} on the stored steady path (scale {scale:.3g}, allowed {tol:g})"
+                             + (f"; {why}" if why else ""))
                     break
                 if abs(r) / scale > worst[0]:
                     worst = (abs(r) / scale, text)
@@ -2085,6 +2118,13 @@ def replay_source(ctx: Ctx, c):
                 ctx.evaluations += 1
                 if not (abs(r) <= TOL_ORACLE * scale):
                     site = c.get("site", "steady-equation-residual")
+                    why = None
+                    if site == "nonlinear-growth-two-date-solution":
+                        # the narrow site is earned, not declared: otherwise the failure goes to the general site
+                        why = two_date_solution(case["flat"], kinds, levels, changes, eqs, [compile_text(x) for x in eqs], text, TOL_ORACLE) \
+                            if t not in (0, 1) else None
+                        if not why:
+                            site = "steady-equation-residual"
                     if c.get("report_only_if_known"):
                         # a finding that is recorded under another property (same root cause); it is reported here only once
                         # known_findings.json lists the site for C05 too (then as KNOWN-FINDING), until then it is counted
@@ -2093,5 +2133,5 @@ def replay_source(ctx: Ctx, c):
                             ctx.count("finding_candidate_not_listed:" + site)
                             ctx.extra.setdefault("finding_candidates", {})[site] = f"`{text}` at date {t:+d}: residual {r!r}"
                             break
-                    ctx.fail(site, c, f"variant {vid}: `{text}` at date {t:+d}: residual {r!r}")
+                    ctx.fail(site, c, f"variant {vid}: `{text}` at date {t:+d}: residual {r!r}" + (f"; {why}" if why else ""))
                     break
